@@ -445,7 +445,7 @@ func parseCallOperand(o interface{}) (string, error) {
 		return operandType, nil
 	case float64:
 
-		return fmt.Sprint(operandType), nil
+		return strconv.FormatFloat(operandType, 'f', -1, 64), nil
 	case bool:
 		if operandType {
 
@@ -514,7 +514,7 @@ func parseOperand(o interface{}, noWrap bool, negation bool) (string, error) {
 		return operandType, nil
 	case float64:
 
-		return fmt.Sprint(operandType), nil
+		return strconv.FormatFloat(operandType, 'f', -1, 64), nil
 	case bool:
 
 		if operandType {
